@@ -200,6 +200,25 @@ for n in range(0, 8):
                     got = "raised %%s" %% type(e).__name__
                 if got != [k for k in ks if k >= probe]:
                     bad.append("%%s%%s(%%r).keys(min=%%r) -> %%r" %% (fam, kind, ks, probe, got))
+                for args, want in (((probe, None, True), [k for k in ks if k > probe]),
+                                   ((None, probe), [k for k in ks if k <= probe]),
+                                   ((None, probe, False, True), [k for k in ks if k < probe])):
+                    try:
+                        got = list(t.keys(*args))
+                    except Exception as e:
+                        got = "raised %%s" %% type(e).__name__
+                    if got != want:
+                        bad.append("%%s%%s(%%r).keys%%r -> %%r, expected %%r" %% (fam, kind, ks, args, got, want))
+                for fn, cand in (("minKey", [k for k in ks if k >= probe]), ("maxKey", [k for k in ks if k <= probe])):
+                    want = (min(cand) if fn == "minKey" else max(cand)) if cand else "ValueError"
+                    try:
+                        got = getattr(t, fn)(probe)
+                    except ValueError:
+                        got = "ValueError"
+                    except Exception as e:
+                        got = "raised %%s" %% type(e).__name__
+                    if got != want:
+                        bad.append("%%s%%s(%%r).%%s(%%r) -> %%r, expected %%r" %% (fam, kind, ks, fn, probe, got, want))
             if list(t.keys()) != ks:
                 bad.append("%%s%%s built from %%r iterates as %%r" %% (fam, kind, keys, list(t.keys())))
 print("\n".join(bad[:12]) or "no violation on vectors of up to 7 keys")
